@@ -158,7 +158,9 @@ class Check:
         for r in sorted(per_rule):
             out.append('  %-8s %3d/%-3d %s' % (r, per_rule[r]['discharged'], per_rule[r]['obligations'], self.rules.get(r, '')[:110]))
         out.extend(lines)
-        if broken:
+        if broken and new:
+            out.append('ANALYSIS-INCOMPLETE property=%s: %s (the violations above come from rules that did complete)' % (self.pid, broken))
+        elif broken:
             out.append('ANALYSIS-BROKEN property=%s: %s' % (self.pid, broken))
         try:
             import sys
@@ -166,9 +168,11 @@ class Check:
             sys.stdout.flush()
         except BrokenPipeError:
             pass   # the reader went away; the verdict is in the exit status and the evidence file
+        if new:
+            return 1
         if broken:
             return 2
-        return 1 if new else 0
+        return 0
 
 
 def _short(n):
